@@ -4,14 +4,14 @@ CONSTANTS
   Unit = 8
   TickMs = 125
   Family = "inf"
-  Bursts = {0, 1, 3}
+  Bursts = {0, 3}
   Rates <- RatesInf
   SetRates <- RatesInf
   Ns = {0, 1, 3}
   Dts <- GDtsQuick
   MaxEvents = 5
   MaxRes = 2
-  Kinds <- KAll
+  Kinds <- KNoDelay
   Deviation = "none"
 INVARIANT Emit
 CHECK_DEADLOCK FALSE
